@@ -315,7 +315,25 @@ impl KwSet { #[verifier::external_body] pub fn contains(&self, s: &str) -> (r: b
                         "precondition: the string is shorter than 10^9 characters"})
 
     # ---- Ident's Display (expression position): display_ident_part
-    dip = X.fn("prqlc/prqlc-parser/src/parser/pr/ident.rs", "display_ident_part")
+    # the function of ident.rs that decides about backticks is the one that holds the keyword table (display_ident_part; after a refactoring possibly a helper of it,
+    # which then may have further parameters: the contract must hold for all their values)
+    ident_src = X.read("prqlc/prqlc-parser/src/parser/pr/ident.rs")
+    part_fn = "display_ident_part"
+    for cand in re.findall(r"\bfn (\w+)\s*\(", ident_src):
+        if cand in ("forbidden_start", "forbidden_subsequent"):
+            continue
+        try:
+            txt = X.fn("prqlc/prqlc-parser/src/parser/pr/ident.rs", cand)
+        except ExtractionError:
+            continue
+        X.items.remove(txt)
+        if re.search(r"const \w+: \[&(?:'static )?str; \d+\]", txt.text) and "forbidden_start" in txt.text:
+            part_fn = cand
+            break
+    dip = X.fn("prqlc/prqlc-parser/src/parser/pr/ident.rs", part_fn)
+    if part_fn != "display_ident_part":
+        dip.rewrite_re("R6", r"\bfn %s\b" % part_fn, "fn display_ident_part", count=1, why="the helper that holds the keyword table is checked under the unit's name for that function")
+        dip.name = "display_ident_part"
     for nested in ("forbidden_start", "forbidden_subsequent"):
         nf = X.fn("prqlc/prqlc-parser/src/parser/pr/ident.rs", nested)
         dip.rewrite("R5", nf.orig, "", why="nested character-class helper dropped with the predicate that uses it")
@@ -505,6 +523,11 @@ def sweep():
             ok1, q1 = replaylib.compile_prql(s1, "sql.sqlite")
             if ok1:
                 out.append(_one(s1, q1, o1, o2, side))
+    # identifiers that need backticks in dotted position, backslashes / quotes / braces inside s- and f-strings
+    for src in ROUNDTRIP:
+        r = _roundtrip(src)
+        r["obligation"] = "prql_prec.DI1" if "`" in src else "prql_prec.FP1.interpolation"
+        out.append(r)
     return out
 
 
@@ -524,3 +547,37 @@ def _one(src, sql0, o1, o2, side):
     else:
         rec.update(failing=False)
     return rec
+
+
+# ----------------------------------------------------------------------------- replay: format -> compile the formatted text -> format again
+ROUNDTRIP = [
+    'from invoices\nfilter invoices.`type` == "credit"\nselect {invoices.id, kind = invoices.`type`}\n',
+    'from t\nselect {`let`, m = `module`.`case`}\n',
+    'from t\nderive {x = s"REPLACE({path}, \'\\\\\', \'/\')", y = f"C:\\\\data\\\\{name}"}\n',
+    'from t\nderive {q = f"say \\"hi\\" {{literally}} {name}"}\n',
+]
+
+
+def _roundtrip(src):
+    import replaylib
+    ok0, sql0 = replaylib.compile_prql(src, "sql.sqlite")
+    okf, f1 = _fmt(src)
+    if not ok0 or not okf:
+        return {"input": src, "expected": "compiles and formats", "observed": (sql0 if not ok0 else f1)[:300], "failing": ("PANIC" in (sql0 if not ok0 else f1)), "replay_kind": "roundtrip"}
+    ok2, sql2 = replaylib.compile_prql(f1, "sql.sqlite")
+    okg, f2 = _fmt(f1)
+    bad = not (ok2 and sql2 == sql0 and okg and f2 == f1)
+    return {"input": src, "expected": "the formatted program compiles to the same SQL and formatting is idempotent", "observed": "formatted:\n%s\n-> %s" % (f1[:300], ("same SQL" if ok2 and sql2 == sql0 else (sql2 or "")[:300])),
+            "failing": bad, "replay_kind": "roundtrip"}
+
+
+def replay(failure):
+    for src in ROUNDTRIP:
+        r = _roundtrip(src)
+        if r["failing"]:
+            return r
+    return {"failing": False}
+
+
+def rerun(doc):
+    return _roundtrip(doc["input"])
